@@ -150,6 +150,27 @@ def replay_path(cfg, path, g: graph.Graph):
   return o, mismatch
 
 
+def outcome_allowed(o, mismatch, path, g: graph.Graph):
+  """After a drift: is the observable outcome of the real run (what each consumer received and how it
+  ended) one the specification can reach from the last point where the run provably followed the path?
+  Returns None if allowed, else (real outcome, number of allowed outcomes)."""
+  if o.failure is not None or not o.states:
+    return None
+  if mismatch['kind'] == 'state':
+    node = path[-1][1]          # the whole script was followed
+  else:
+    node = path[mismatch['step']][0]
+  real = norm_real(o.states[-1])
+  key = lambda d: repr((sorted((c, [list(e) if isinstance(e, (list, tuple)) else e for e in v]) for c, v in d['received'].items()),
+                        sorted((c, list(v)) for c, v in d['ended'].items())))
+  allowed = set()
+  for t in g.reachable_terminals(node):
+    allowed.add(key(spec_proj(g.state(t))))
+  if key(real) in allowed:
+    return None
+  return dict(received=real['received'], ended=real['ended']), len(allowed)
+
+
 def scratch(prefix='verif_q_'):
   return tlc.scratch_dir(prefix)
 
